@@ -886,13 +886,82 @@ fn histories(n: usize, mode: &str) -> bool {
     true
 }
 
+
+// ---------------------------------------------------------------- C09: the API layers agree call by call
+/// `layers <n>`: n random call sequences (resets to the same or another configuration, abandoned rounds, failing calls) executed in
+/// lockstep on ReedSolomonEncoder vs DefaultRateEncoder<DefaultEngine> and ReedSolomonDecoder vs DefaultRateDecoder<DefaultEngine>:
+/// every call must return the same Ok / Err value and the same bytes on both layers.
+fn layers(n: usize) -> bool {
+    let mut master = Rng::new(seed()); let mut calls = 0u64;
+    let cfgs: [(usize, usize); 8] = [(3, 2), (2, 3), (5, 3), (3, 5), (5, 7), (1, 1), (4, 4), (9, 5)];
+    for h in 0..n {
+        let mut rng = Rng(master.next() | 1);
+        let (mut k, mut r) = cfgs[rng.below(cfgs.len())]; let mut sb = [2usize, 64, 66, 100, 128][rng.below(5)];
+        let mut log = format!("new({}, {}, {})", k, r, sb);
+        macro_rules! bad { ($what:expr) => {{ println!("FAIL layers history #{}: {} :: {}", h, log, $what); return false; }} }
+        if rng.below(2) == 0 {
+            let (Ok(mut a), Ok(mut b)) = (ReedSolomonEncoder::new(k, r, sb), DefaultRateEncoder::<DefaultEngine>::new(k, r, sb, DefaultEngine::new(), None)) else { bad!("new failed") };
+            for _round in 0..(2 + rng.below(3)) {
+                let data = rand_data_z(&mut rng, k, sb);
+                let take = if rng.below(4) == 0 { rng.below(k + 1) } else { k };
+                for d in data.iter().take(take) {
+                    if rng.below(8) == 0 { let w = rng.bytes(sb + 2); let (x, y) = (a.add_original_shard(&w), b.add_original_shard(&w)); log += " !add"; calls += 1; if x != y { bad!(format!("wrong-size add: {:?} vs {:?}", x, y)) } }
+                    let (x, y) = (a.add_original_shard(d), b.add_original_shard(d)); calls += 1; if x != y { bad!(format!("add: {:?} vs {:?}", x, y)) }
+                }
+                log += &format!(" add*{}", take);
+                if take == k || rng.below(2) == 0 {
+                    let x = a.encode().map(|res| res.recovery_iter().map(|s| s.to_vec()).collect::<Vec<_>>());
+                    let y = b.encode().map(|res| res.recovery_iter().map(|s| s.to_vec()).collect::<Vec<_>>());
+                    log += " encode"; calls += 1; if x != y { bad!(format!("encode: {:?} vs {:?}", x.as_ref().map(|v| v.len()), y.as_ref().map(|v| v.len()))) }
+                } else { log += " (abandoned)"; }
+                match rng.below(4) {
+                    0 => {}
+                    1 => { let (x, y) = (a.reset(k, r, sb), b.reset(k, r, sb)); log += " reset(same)"; calls += 1; if x != y { bad!(format!("reset: {:?} vs {:?}", x, y)) } }
+                    2 => { let bad_sb = [0usize, sb + 1][rng.below(2)]; let (x, y) = (a.reset(k, r, bad_sb), b.reset(k, r, bad_sb)); log += " !reset"; calls += 1; if x != y { bad!(format!("failing reset: {:?} vs {:?}", x, y)) } }
+                    _ => { let c = cfgs[rng.below(cfgs.len())]; let nsb = [2usize, 64, 66, 100, 128][rng.below(5)]; let (x, y) = (a.reset(c.0, c.1, nsb), b.reset(c.0, c.1, nsb));
+                           log += &format!(" reset({}, {}, {})", c.0, c.1, nsb); calls += 1; if x != y { bad!(format!("reset: {:?} vs {:?}", x, y)) } if x.is_ok() { k = c.0; r = c.1; sb = nsb; } }
+                }
+            }
+        } else {
+            let (Ok(mut a), Ok(mut b)) = (ReedSolomonDecoder::new(k, r, sb), DefaultRateDecoder::<DefaultEngine>::new(k, r, sb, DefaultEngine::new(), None)) else { bad!("new failed") };
+            for _round in 0..(2 + rng.below(3)) {
+                let data = rand_data_z(&mut rng, k, sb);
+                let rec = enc_with(Codec::Default, NoSimd::new(), k, r, &data).unwrap();
+                let mut idx: Vec<usize> = (0..k + r).collect(); shuffle(&mut rng, &mut idx);
+                let take = if rng.below(4) == 0 { rng.below(k + 1) } else { k + rng.below(r + 1) };
+                for &p in idx.iter().take(take) {
+                    if rng.below(8) == 0 { let w = rng.bytes(sb + 2); let (x, y) = if p < k { (a.add_original_shard(p, &w), b.add_original_shard(p, &w)) } else { (a.add_recovery_shard(p - k, &w), b.add_recovery_shard(p - k, &w)) };
+                        log += " !add"; calls += 1; if x != y { bad!(format!("wrong-size add: {:?} vs {:?}", x, y)) } }
+                    let (x, y) = if p < k { (a.add_original_shard(p, &data[p]), b.add_original_shard(p, &data[p])) } else { (a.add_recovery_shard(p - k, &rec[p - k]), b.add_recovery_shard(p - k, &rec[p - k])) };
+                    calls += 1; if x != y { bad!(format!("add {}: {:?} vs {:?}", p, x, y)) }
+                }
+                log += &format!(" add*{}", take);
+                if rng.below(4) > 0 {
+                    let x = a.decode().map(|res| res.restored_original_iter().map(|(i, s)| (i, s.to_vec())).collect::<Vec<_>>());
+                    let y = b.decode().map(|res| res.restored_original_iter().map(|(i, s)| (i, s.to_vec())).collect::<Vec<_>>());
+                    log += " decode"; calls += 1; if x != y { bad!(format!("decode: {:?} vs {:?}", x.as_ref().map(|v| v.len()), y.as_ref().map(|v| v.len()))) }
+                } else { log += " (abandoned)"; }
+                match rng.below(4) {
+                    0 => {}
+                    1 => { let (x, y) = (a.reset(k, r, sb), b.reset(k, r, sb)); log += " reset(same)"; calls += 1; if x != y { bad!(format!("reset: {:?} vs {:?}", x, y)) } }
+                    2 => { let bad_sb = [0usize, sb + 1][rng.below(2)]; let (x, y) = (a.reset(k, r, bad_sb), b.reset(k, r, bad_sb)); log += " !reset"; calls += 1; if x != y { bad!(format!("failing reset: {:?} vs {:?}", x, y)) } }
+                    _ => { let c = cfgs[rng.below(cfgs.len())]; let nsb = [2usize, 64, 66, 100, 128][rng.below(5)]; let (x, y) = (a.reset(c.0, c.1, nsb), b.reset(c.0, c.1, nsb));
+                           log += &format!(" reset({}, {}, {})", c.0, c.1, nsb); calls += 1; if x != y { bad!(format!("reset: {:?} vs {:?}", x, y)) } if x.is_ok() { k = c.0; r = c.1; sb = nsb; } }
+                }
+            }
+        }
+    }
+    println!("OK layers {} calls compared over {} histories (bounded)", calls, n);
+    true
+}
+
 fn main() {
     let a: Vec<String> = std::env::args().collect();
     let f = Field::new();
     let num = |i: usize, d: usize| a.get(i).and_then(|s| s.parse().ok()).unwrap_or(d);
     // "valid use never panics / never fails" is part of what these commands check: there a panic of the crate is their own failure (exit 1);
     // elsewhere a panic or an unexpected Err while a stand-in sets up its scenario is trouble outside its oracle (PANIC line, exit 3)
-    let own = matches!(a.get(1).map(|s| s.as_str()), Some("defects" | "roundtrip" | "histories" | "oneshot"));
+    let own = matches!(a.get(1).map(|s| s.as_str()), Some("defects" | "roundtrip" | "histories" | "oneshot" | "layers"));
     std::panic::set_hook(Box::new(move |info| { let m = info.to_string().replace('\n', " "); if own { println!("FAIL panic in the crate under test: {}", m); } else { println!("PANIC {}", m); } }));
     let res = std::panic::catch_unwind(|| match a.get(1).map(|s| s.as_str()) {
         Some("kernels") => kernels_all(a.get(2).map(|s| s.as_str()).unwrap_or("all"), num(3, 65536), &f),
@@ -905,6 +974,7 @@ fn main() {
         Some("sizes") => sizes(num(2, 130)),
         Some("oneshot") => oneshot(num(2, 300)),
         Some("linearity") => linearity(num(2, 100), &f),
+        Some("layers") => layers(num(2, 300)),
         Some("histories") => histories(num(2, 300), a.get(3).map(|s| s.as_str()).unwrap_or("all")),
         Some("alloc") => alloc(num(2, 20)),
         _ => { println!("usage: vnative kernels|tables|closedform|roundtrip|engines|sizes|oneshot|linearity|histories|alloc|defects ..."); false }
